@@ -14,10 +14,22 @@ CHECKS = {
    text="wirefence_weight_and_pick is proved (all path lengths, all order values incl. ties with the interfaces) against a first-order definition of 'valid sub-path' taken from the property: recorded segments sound/ordered/complete, weight = sum of interior frame counts, positive iff a valid sub-path exists, pick = first segment whose cumulative share reaches the drawn number and returns exactly its frames; compute_weight (factor 2), calc_cv_vector (vector shape) and high_acc_swap (ratio) are proved against explicit formulas; time-reversal symmetry of the spec is a z3 lemma.",
    note="Trusted: E1 encoder (canaries + native differential), floats as reals, rgen.random() in [0,1), np.argmax contract, A-DET (weight-only mode is a function of its inputs), maths lemmas L1/L2/L5 (cardinality of disjoint intervals, mirror invariance, uniform law) not mechanised.",
    design="5/C10"),
- "C09": dict(level="proof", technique=E1,
+ "C09": dict(level="other", technique=E1,
    text="EngineBase.add_to_path is proved against an exact iff-specification of the stop/success rule; shoot() is executed symbolically on the real AST for every start condition and both length-limit branches: each ACC outcome satisfies Valid(path, ensemble) from the property text, accept iff status ACC, old path and all pre-existing frames untouched on every outcome, shooting index interior, shooting point contained and time-consistent, and the u <= n_old/n_new threshold (refuted on two input classes recorded as known findings, replayed natively through the real code).",
    note="Assumed: the RESULT contract of engine.propagate for external engines (contracts/engine.py; its stop rule is the proved add_to_path), modify_velocities/calculate_order touch only their System, rgen ranges. Callee summaries paste_paths/__iadd__/copy are proved under C15. wire_fencing/zero-swap clauses are being added (see DESIGN).",
    design="5/C09"),
+ "C11": dict(level="other", technique=E1,
+   text="retis_swap_zero is executed symbolically on the real AST (plain, lambda_-1, wire-fencing variants): on ACC the junction frames are exactly the two crossing frames of the other old path, both new paths satisfy Valid(path, ensemble), accept iff status ACC, lambda_-1 left-ending paths are rejected without any propagate call, nothing pre-existing is written. One measure-zero known finding (ties at lambda_0). Reversibility needs an engine premise and quantis_swap_zero is not yet under contract, hence 'other'.",
+   note="Assumed: engine.propagate RESULT contract (stop rule = proved add_to_path), both ensembles share one tis_set (same maxlength), old paths valid with >= 3 frames. Summaries of Path.__iadd__/copy/compute_weight/high_acc_swap proved under C15/C10.",
+   design="5/C11"),
+ "C17": dict(level="other", technique=E1,
+   text="Step arithmetic proved symbolically in (workers, steps, restart point) on the real ASTs of scheduler.scheduler, REPEX_state.initiate/loop and future_list.as_completed (two loop invariants each): exactly steps - restart_point moves are consumed, final restart cstep = completed moves, results only taken from completed futures, exactly the returned future leaves the list. 'No job in flight at the end' refuted for remaining steps < workers (known finding). The asyncio/thread/process runner is not decided.",
+   note="Assumed: treat_output consumes one result and leaves cstep alone; prep/submit create one job; Future.done() monotone. Not decided: aiorunner concurrency, setup_config's continue condition.",
+   design="5/C17"),
+ "C18": dict(level="other", technique=E1,
+   text="check_config executed symbolically with interfaces/moves of symbolic length and cap/lambda_-1/quantis present or absent: every normal return satisfies Valid(cfg) from the property's own list and every rejection is a TOMLConfigError. Three defects found this way were repaired (fix: commit e5f38a1). Initialisation and fixed-point clauses not decided.",
+   note="Engine sections explored for four concrete shapes; sorted(x)!=x and len(set(x))!=len(x) via their list-theoretic meaning (NaN-free floats).",
+   design="5/C18"),
 }
 NA = {
  "C01": "statistical convergence of an estimator over random histories; no pre/postcondition, invariant or lemma over function contracts expresses or decides it (DESIGN 5/C01). Its deterministic ingredients are decided under C02, C04, C09, C10.",
